@@ -17,6 +17,8 @@ pub mod c13;
 pub mod c14;
 pub mod c15;
 pub mod c16;
+pub mod c17;
+pub mod c18;
 pub mod c19;
 
 pub struct Entry {
@@ -42,6 +44,8 @@ pub const ENTRIES: &[Entry] = &[
     Entry { id: "C14", run: c14::run, replay: c14::replay },
     Entry { id: "C15", run: c15::run, replay: c15::replay },
     Entry { id: "C16", run: c16::run, replay: c16::replay },
+    Entry { id: "C17", run: c17::run, replay: c17::replay },
+    Entry { id: "C18", run: c18::run, replay: c18::replay },
     Entry { id: "C19", run: c19::run, replay: c19::replay },
 ];
 
